@@ -91,6 +91,10 @@ CONFIGS = [
     cfg("salt_q", [["build"], ["salt"], ["salt", "lookup"]],
         atoms=("a1",), nreg=2, maxsize=30, maxt=1, inv=("WellFormedInv",), props=("C17Prop",),
         shapes="ShUpTo(%s, 3) \\cup {e \\in Sh(%s, 5) : IsNode(e)}" % (B2, B1)),
+    # totality: every transform on decorated / partially obscured shapes (C16)
+    cfg("total_q", [["build"], ["elideset", "compressone"], ["assertions", "compress", "encrypt", "navigate", "wrap", "lookup", "salt", "elideone"]],
+        atoms=("a1",), nreg=1, maxsize=14, maxt=1, inv=("WellFormedInv",), props=("C02Prop", "C07Prop"),
+        shapes="Decorated(%s) \\cup NodeSubjectNodes(%s, 9) \\cup {e \\in Sh(%s, 5) : IsNode(e)}" % (B1, B1, B2)),
     # an assertion and its obscured twin
     cfg("twin_q", [["build"], ["navigate"], ["elideone", "compressone", "navigate"], ["assertions"]], maxsize=9, maxt=1,
         shapes="{e \\in ShUpTo(%s, 5) : IsNode(e)}" % B2),
